@@ -133,9 +133,8 @@ theorem counted_dec_ok_if {α : Type} (w : Nat) (c : PCodec α) (L : α → Prop
     DecOKIf (counted w c) (fun vs => ∀ v ∈ vs, L v) := counted_decOKIf w hc
 
 /-! ## per class: `<class>_dec_encodable` (whatever the class's reader returns is writable and in the domain of the round
-trip) and `<class>_resave_stable` (the three clauses). `…_partial`: under the side condition named in the statement - a
-descriptor key cut short by the end of the stream (`KeysFull`), C01's `chainOK` for the slices, or the length field of a
-re-encoded block. -/
+trip) and `<class>_resave_stable` (the three clauses). `…_partial`: under the side condition named in the statement - C01's
+`chainOK` for the version-6 slices, or the length field of a re-encoded block. -/
 
 /-! ### unit 7: image-resource payloads -/
 
@@ -195,15 +194,16 @@ theorem url_list_dec_encodable : DecOK URLList.codec := URLList.decOK
 theorem url_list_resave_stable : Stable URLList.codec := stable_of URLList.decOK URLList.rt.atEnd
 theorem version_info_dec_encodable : DecOK VersionInfo.codec := VersionInfo.decOK
 theorem version_info_resave_stable : Stable VersionInfo.codec := stable_of VersionInfo.decOK VersionInfo.rt.atEnd
-theorem slice_v6_dec_encodable_partial (tb : Descriptor.Tables) (ht : Descriptor.TermsFour tb) : DecOKIf (SliceV6.codec tb) (fun x => optFits Descriptor.Block.KeysFull x.data) := SliceV6.decOKIf tb ht
-theorem slice_v6_resave_stable_partial (tb : Descriptor.Tables) (ht : Descriptor.TermsFour tb) : StableIf (SliceV6.codec tb) (fun x => optFits Descriptor.Block.KeysFull x.data) := stableIf_of (SliceV6.decOKIf tb ht) (SliceV6.rt tb)
-/-- besides the descriptor keys: C01's (F) clause `chainOK` (a slice without descriptor followed by a slice whose id is 16) -/
+theorem slice_v6_dec_encodable (tb : Descriptor.Tables) (ht : Descriptor.TermsFour tb) : DecOK (SliceV6.codec tb) := SliceV6.decOK tb ht
+theorem slice_v6_resave_stable (tb : Descriptor.Tables) (ht : Descriptor.TermsFour tb) : Stable (SliceV6.codec tb) := stable_of (SliceV6.decOK tb ht) (SliceV6.rt tb)
+/-- under C01's (F) clause `chainOK`: a slice without descriptor is not followed by a slice whose id is 16 (known finding C01/slices/id16-after-slice-without-data) -/
 theorem slices_v6_dec_encodable_partial (tb : Descriptor.Tables) (ht : Descriptor.TermsFour tb) : DecOKIf (SlicesV6.codec tb) SlicesV6.ResaveOK := SlicesV6.decOKIf tb ht
 theorem slices_v6_resave_stable_partial (tb : Descriptor.Tables) (ht : Descriptor.TermsFour tb) : StableIf (SlicesV6.codec tb) SlicesV6.ResaveOK := stableIf_of (SlicesV6.decOKIf tb ht) (SlicesV6.rt tb)
 theorem slices_dec_encodable_partial (tb : Descriptor.Tables) (ht : Descriptor.TermsFour tb) : DecOKIf (Slices.codec tb) Slices.ResaveOK := Slices.decOKIf tb ht
 theorem slices_resave_stable_partial (tb : Descriptor.Tables) (ht : Descriptor.TermsFour tb) : StableIf (Slices.codec tb) Slices.ResaveOK := stableIf_of (Slices.decOKIf tb ht) (Slices.rt tb)
-theorem descriptor_resource_dec_encodable_partial (tb : Descriptor.Tables) (ht : Descriptor.TermsFour tb) : DecOKIf (DescriptorResource.codec tb) Descriptor.Block.KeysFull := DescriptorResource.decOKIf tb ht
-theorem descriptor_resource_resave_stable_partial (tb : Descriptor.Tables) (ht : Descriptor.TermsFour tb) : StableIf (DescriptorResource.codec tb) Descriptor.Block.KeysFull := stableIf_of (DescriptorResource.decOKIf tb ht) (DescriptorResource.rt tb).atEnd
+/-- after repo commit 3c59c32 (a key cut short is an IOError) nothing the descriptor reader returns is outside the round trip -/
+theorem descriptor_resource_dec_encodable (tb : Descriptor.Tables) (ht : Descriptor.TermsFour tb) : DecOK (DescriptorResource.codec tb) := DescriptorResource.decOK tb ht
+theorem descriptor_resource_resave_stable (tb : Descriptor.Tables) (ht : Descriptor.TermsFour tb) : Stable (DescriptorResource.codec tb) := stable_of (DescriptorResource.decOK tb ht) (DescriptorResource.rt tb).atEnd
 
 /-! ### unit 8: adjustments -/
 
@@ -211,8 +211,8 @@ theorem brightness_contrast_dec_encodable : DecOK BrightnessContrast.codec := Br
 theorem brightness_contrast_resave_stable : Stable BrightnessContrast.codec := stable_of BrightnessContrast.decOK BrightnessContrast.rt.atEnd
 theorem color_balance_dec_encodable : DecOK ColorBalance.codec := ColorBalance.decOK
 theorem color_balance_resave_stable : Stable ColorBalance.codec := stable_of ColorBalance.decOK ColorBalance.rt.atEnd
-theorem color_lookup_dec_encodable_partial (tb : Descriptor.Tables) (ht : Descriptor.TermsFour tb) (pad : Nat) : DecOKIf (ColorLookup.codec tb pad) Descriptor.Block2.KeysFull := ColorLookup.decOKIf tb ht pad
-theorem color_lookup_resave_stable_partial (tb : Descriptor.Tables) (ht : Descriptor.TermsFour tb) (pad : Nat) : StableIf (ColorLookup.codec tb pad) Descriptor.Block2.KeysFull := stableIf_of (ColorLookup.decOKIf tb ht pad) (ColorLookup.rt tb pad).atEnd
+theorem color_lookup_dec_encodable (tb : Descriptor.Tables) (ht : Descriptor.TermsFour tb) (pad : Nat) : DecOK (ColorLookup.codec tb pad) := ColorLookup.decOK tb ht pad
+theorem color_lookup_resave_stable (tb : Descriptor.Tables) (ht : Descriptor.TermsFour tb) (pad : Nat) : Stable (ColorLookup.codec tb pad) := stable_of (ColorLookup.decOK tb ht pad) (ColorLookup.rt tb pad).atEnd
 theorem channel_mixer_dec_encodable : DecOK ChannelMixer.codec := ChannelMixer.decOK
 theorem channel_mixer_resave_stable : Stable ChannelMixer.codec := stable_of ChannelMixer.decOK ChannelMixer.rt
 /-- the flag byte is read as a truth value; for version 1 the extra marker is kept only when its read does not run out of data -/
@@ -247,12 +247,12 @@ theorem path_dec_encodable (pad : Nat) (hp : 0 < pad ∧ pad ≤ 26) : DecOK (Pa
 theorem path_resave_stable (pad : Nat) (hp : 0 < pad ∧ pad ≤ 26) : Stable (Path.codec pad) := stable_of (Path.decOK pad hp) (Path.rt pad)
 theorem vector_mask_setting_dec_encodable : DecOK VectorMaskSetting.codec := VectorMaskSetting.decOK
 theorem vector_mask_setting_resave_stable : Stable VectorMaskSetting.codec := stable_of VectorMaskSetting.decOK VectorMaskSetting.rt
-theorem vector_stroke_content_setting_dec_encodable_partial (tb : Descriptor.Tables) (ht : Descriptor.TermsFour tb) (pad : Nat) : DecOKIf (VectorStrokeContentSetting.codec tb pad) VectorStrokeContentSetting.KeysFull := VectorStrokeContentSetting.decOKIf tb ht pad
-theorem vector_stroke_content_setting_resave_stable_partial (tb : Descriptor.Tables) (ht : Descriptor.TermsFour tb) (pad : Nat) : StableIf (VectorStrokeContentSetting.codec tb pad) VectorStrokeContentSetting.KeysFull := stableIf_of (VectorStrokeContentSetting.decOKIf tb ht pad) (VectorStrokeContentSetting.rt tb pad).atEnd
-theorem descriptor_payload_dec_encodable_partial (tb : Descriptor.Tables) (ht : Descriptor.TermsFour tb) (pad : Nat) : DecOKIf (DescriptorPayload.codec tb pad) Descriptor.Block.KeysFull := DescriptorPayload.decOKIf tb ht pad
-theorem descriptor_payload_resave_stable_partial (tb : Descriptor.Tables) (ht : Descriptor.TermsFour tb) (pad : Nat) : StableIf (DescriptorPayload.codec tb pad) Descriptor.Block.KeysFull := stableIf_of (DescriptorPayload.decOKIf tb ht pad) (DescriptorPayload.rt tb pad).atEnd
-theorem descriptor2_payload_dec_encodable_partial (tb : Descriptor.Tables) (ht : Descriptor.TermsFour tb) (pad : Nat) : DecOKIf (Descriptor2Payload.codec tb pad) Descriptor.Block2.KeysFull := Descriptor2Payload.decOKIf tb ht pad
-theorem descriptor2_payload_resave_stable_partial (tb : Descriptor.Tables) (ht : Descriptor.TermsFour tb) (pad : Nat) : StableIf (Descriptor2Payload.codec tb pad) Descriptor.Block2.KeysFull := stableIf_of (Descriptor2Payload.decOKIf tb ht pad) (Descriptor2Payload.rt tb pad).atEnd
+theorem vector_stroke_content_setting_dec_encodable (tb : Descriptor.Tables) (ht : Descriptor.TermsFour tb) (pad : Nat) : DecOK (VectorStrokeContentSetting.codec tb pad) := VectorStrokeContentSetting.decOK tb ht pad
+theorem vector_stroke_content_setting_resave_stable (tb : Descriptor.Tables) (ht : Descriptor.TermsFour tb) (pad : Nat) : Stable (VectorStrokeContentSetting.codec tb pad) := stable_of (VectorStrokeContentSetting.decOK tb ht pad) (VectorStrokeContentSetting.rt tb pad).atEnd
+theorem descriptor_payload_dec_encodable (tb : Descriptor.Tables) (ht : Descriptor.TermsFour tb) (pad : Nat) : DecOK (DescriptorPayload.codec tb pad) := DescriptorPayload.decOK tb ht pad
+theorem descriptor_payload_resave_stable (tb : Descriptor.Tables) (ht : Descriptor.TermsFour tb) (pad : Nat) : Stable (DescriptorPayload.codec tb pad) := stable_of (DescriptorPayload.decOK tb ht pad) (DescriptorPayload.rt tb pad).atEnd
+theorem descriptor2_payload_dec_encodable (tb : Descriptor.Tables) (ht : Descriptor.TermsFour tb) (pad : Nat) : DecOK (Descriptor2Payload.codec tb pad) := Descriptor2Payload.decOK tb ht pad
+theorem descriptor2_payload_resave_stable (tb : Descriptor.Tables) (ht : Descriptor.TermsFour tb) (pad : Nat) : Stable (Descriptor2Payload.codec tb pad) := stable_of (Descriptor2Payload.decOK tb ht pad) (Descriptor2Payload.rt tb pad).atEnd
 
 /-! ### unit 10: filter effects -/
 
@@ -335,16 +335,16 @@ theorem pattern_dec_encodable_partial : DecOKIf Pattern.codec (fun x => VMAL.Len
 theorem pattern_resave_stable_partial : StableIf Pattern.codec (fun x => VMAL.LenFits x.data) := stableIf_of Pattern.decOKIf Pattern.rt.atEnd
 theorem patterns_dec_encodable_partial : DecOKIf Patterns.codec Patterns.LenFits := Patterns.decOKIf
 theorem patterns_resave_stable_partial : StableIf Patterns.codec Patterns.LenFits := stableIf_of Patterns.decOKIf Patterns.rt
-theorem linked_layer_dec_encodable_partial (tb : Descriptor.Tables) (ht : Descriptor.TermsFour tb) (pad : Nat) : DecOKIf (LinkedLayer.codec tb pad) LinkedLayer.KeysOK := LinkedLayer.decOKIf tb ht pad
-theorem linked_layer_resave_stable_partial (tb : Descriptor.Tables) (ht : Descriptor.TermsFour tb) (pad : Nat) : StableIf (LinkedLayer.codec tb pad) LinkedLayer.KeysOK := stableIf_of (LinkedLayer.decOKIf tb ht pad) (LinkedLayer.rt tb pad).atEnd
+theorem linked_layer_dec_encodable (tb : Descriptor.Tables) (ht : Descriptor.TermsFour tb) (pad : Nat) : DecOK (LinkedLayer.codec tb pad) := LinkedLayer.decOK tb ht pad
+theorem linked_layer_resave_stable (tb : Descriptor.Tables) (ht : Descriptor.TermsFour tb) (pad : Nat) : Stable (LinkedLayer.codec tb pad) := stable_of (LinkedLayer.decOK tb ht pad) (LinkedLayer.rt tb pad).atEnd
 theorem linked_layers_dec_encodable_partial (tb : Descriptor.Tables) (ht : Descriptor.TermsFour tb) : DecOKIf (LinkedLayers.codec tb) (LinkedLayers.ResaveOK tb) := LinkedLayers.decOKIf tb ht
 theorem linked_layers_resave_stable_partial (tb : Descriptor.Tables) (ht : Descriptor.TermsFour tb) : StableIf (LinkedLayers.codec tb) (LinkedLayers.ResaveOK tb) := stableIf_of (LinkedLayers.decOKIf tb ht) (LinkedLayers.rt tb)
-theorem smart_object_layer_data_dec_encodable_partial (tb : Descriptor.Tables) (ht : Descriptor.TermsFour tb) (pad : Nat) : DecOKIf (SmartObjectLayerData.codec tb pad) (fun x => x.data.KeysFull) := SmartObjectLayerData.decOKIf tb ht pad
-theorem smart_object_layer_data_resave_stable_partial (tb : Descriptor.Tables) (ht : Descriptor.TermsFour tb) (pad : Nat) : StableIf (SmartObjectLayerData.codec tb pad) (fun x => x.data.KeysFull) := stableIf_of (SmartObjectLayerData.decOKIf tb ht pad) (SmartObjectLayerData.rt tb pad).atEnd
-theorem placed_layer_data_dec_encodable_partial (tb : Descriptor.Tables) (ht : Descriptor.TermsFour tb) (pad : Nat) : DecOKIf (PlacedLayerData.codec tb pad) (fun x => x.warp.KeysFull) := PlacedLayerData.decOKIf tb ht pad
-theorem placed_layer_data_resave_stable_partial (tb : Descriptor.Tables) (ht : Descriptor.TermsFour tb) (pad : Nat) : StableIf (PlacedLayerData.codec tb pad) (fun x => x.warp.KeysFull) := stableIf_of (PlacedLayerData.decOKIf tb ht pad) (PlacedLayerData.rt tb pad).atEnd
-theorem type_tool_object_setting_dec_encodable_partial (tb : Descriptor.Tables) (ht : Descriptor.TermsFour tb) (pad : Nat) : DecOKIf (TypeToolObjectSetting.codec tb pad) (fun x => x.textData.KeysFull ∧ x.warp.KeysFull) := TypeToolObjectSetting.decOKIf tb ht pad
-theorem type_tool_object_setting_resave_stable_partial (tb : Descriptor.Tables) (ht : Descriptor.TermsFour tb) (pad : Nat) : StableIf (TypeToolObjectSetting.codec tb pad) (fun x => x.textData.KeysFull ∧ x.warp.KeysFull) := stableIf_of (TypeToolObjectSetting.decOKIf tb ht pad) (TypeToolObjectSetting.rt tb pad).atEnd
+theorem smart_object_layer_data_dec_encodable (tb : Descriptor.Tables) (ht : Descriptor.TermsFour tb) (pad : Nat) : DecOK (SmartObjectLayerData.codec tb pad) := SmartObjectLayerData.decOK tb ht pad
+theorem smart_object_layer_data_resave_stable (tb : Descriptor.Tables) (ht : Descriptor.TermsFour tb) (pad : Nat) : Stable (SmartObjectLayerData.codec tb pad) := stable_of (SmartObjectLayerData.decOK tb ht pad) (SmartObjectLayerData.rt tb pad).atEnd
+theorem placed_layer_data_dec_encodable (tb : Descriptor.Tables) (ht : Descriptor.TermsFour tb) (pad : Nat) : DecOK (PlacedLayerData.codec tb pad) := PlacedLayerData.decOK tb ht pad
+theorem placed_layer_data_resave_stable (tb : Descriptor.Tables) (ht : Descriptor.TermsFour tb) (pad : Nat) : Stable (PlacedLayerData.codec tb pad) := stable_of (PlacedLayerData.decOK tb ht pad) (PlacedLayerData.rt tb pad).atEnd
+theorem type_tool_object_setting_dec_encodable (tb : Descriptor.Tables) (ht : Descriptor.TermsFour tb) (pad : Nat) : DecOK (TypeToolObjectSetting.codec tb pad) := TypeToolObjectSetting.decOK tb ht pad
+theorem type_tool_object_setting_resave_stable (tb : Descriptor.Tables) (ht : Descriptor.TermsFour tb) (pad : Nat) : Stable (TypeToolObjectSetting.codec tb pad) := stable_of (TypeToolObjectSetting.decOK tb ht pad) (TypeToolObjectSetting.rt tb pad).atEnd
 
 /-! ## the descriptor family -/
 
@@ -353,70 +353,46 @@ model. A term of another length would be written with the length field 0 and re-
 theorem terms_have_four_bytes : Generated.Terms.oddTerms = 0 ∧ Descriptor.TermsFour Descriptor.realTables :=
   ⟨by decide, Descriptor.realTables_termsFour⟩
 
-/-- a key as `read_length_and_key` returns it is always writable, and it satisfies the key law of C20 / C01 IFF it was
-read in full (`KeyFull`: 4 bytes behind a length field of 0, at least one byte otherwise) - the reader's `fp.read(length or
-4)` is lenient, a key at the very end of a stream can come back shorter -/
-theorem descriptor_key_wf_iff (tb : Descriptor.Tables) (ht : Descriptor.TermsFour tb) (d : B) (p : Nat) (k : Descriptor.Key) (p' : Nat)
+/-- a key as `read_length_and_key` returns it: writable, satisfying the key law of C20 / C01, and with all the bytes its
+length field announced (4 behind a length field of 0, at least one otherwise) -/
+theorem descriptor_key_dec_ok (tb : Descriptor.Tables) (ht : Descriptor.TermsFour tb) (d : B) (p : Nat) (k : Descriptor.Key) (p' : Nat)
     (h : Descriptor.readKeyR tb d p = .ok (k, p')) :
-    Descriptor.KeyFits tb k ∧ (Descriptor.KeyWF tb k ↔ Descriptor.KeyFull k) := by
-  obtain ⟨a, b, c⟩ := Descriptor.ret_readKey tb ht d p k p' h
-  exact ⟨a, c, b⟩
+    Descriptor.KeyFits tb k ∧ Descriptor.KeyWF tb k ∧ Descriptor.KeyFull k :=
+  Descriptor.ret_readKey tb ht d p k p' h
 
-/-- every class of `descriptor.TYPES`: whatever its reader returns is writable (no hypothesis) -/
+/-- every class of `descriptor.TYPES`: whatever its reader returns is writable and in the domain of C01's round trip (`WF`:
+key law, surrogate law, units, no key twice). Nothing is normalised out of it: explicit / implicit keys are kept as they
+are, `RawData`, `Alias`, `Path` are opaque bytes behind their length, unit floats keep their unit, duplicate keys collapse in
+the `OrderedDict` (and the count is re-derived), a boolean is any non-zero byte (re-written as 1). -/
 theorem descriptor_dec_encodable (tb : Descriptor.Tables) (ht : Descriptor.TermsFour tb) (t : Descriptor.Tag) (d : B) (p : Nat)
-    (v : Descriptor.DVal) (p' : Nat) (h : Descriptor.dec tb t d p = .ok (v, p')) : ∃ bs, Descriptor.enc tb v = .ok bs := by
-  obtain ⟨f, _, _⟩ := Descriptor.dec_good ht t d p v p' h
-  exact ⟨Descriptor.encT tb v, by simp only [Descriptor.enc, if_pos f]⟩
-
-/-- ... and it is in the domain of C01's round trip (`WF`: key law, surrogate law, units, no key twice, block versions)
-IFF none of its keys was cut short. Nothing else is normalised away: explicit / implicit keys, `RawData`, `Alias`, `Path`,
-unit floats, duplicate keys (collapsed by the `OrderedDict`), booleans (any non-zero byte reads as `True`). -/
-theorem descriptor_dec_wf_iff (tb : Descriptor.Tables) (ht : Descriptor.TermsFour tb) (t : Descriptor.Tag) (d : B) (p : Nat)
     (v : Descriptor.DVal) (p' : Nat) (h : Descriptor.dec tb t d p = .ok (v, p')) :
-    Descriptor.WF tb v ↔ Descriptor.KeysFull v := by
-  obtain ⟨_, a, b⟩ := Descriptor.dec_good ht t d p v p' h
-  exact ⟨b, a⟩
+    Descriptor.WF tb v ∧ ∃ bs, Descriptor.enc tb v = .ok bs := by
+  obtain ⟨f, w⟩ := Descriptor.dec_good ht t d p v p' h
+  exact ⟨w, Descriptor.encT tb v, by simp only [Descriptor.enc, if_pos f]⟩
 
-theorem descriptor_block_dec_wf_iff (tb : Descriptor.Tables) (ht : Descriptor.TermsFour tb) (d : B) (p : Nat)
-    (b : Descriptor.Block) (p' : Nat) (h : Descriptor.Block.dec tb d p = .ok (b, p')) :
-    b.Fits tb ∧ (b.WF tb ↔ b.KeysFull) := by
-  obtain ⟨f, a, c⟩ := Descriptor.Block.dec_good ht d p b p' h
-  exact ⟨f, c, a⟩
+theorem descriptor_block_dec_encodable (tb : Descriptor.Tables) (ht : Descriptor.TermsFour tb) (d : B) (p : Nat)
+    (b : Descriptor.Block) (p' : Nat) (h : Descriptor.Block.dec tb d p = .ok (b, p')) : b.WF tb ∧ b.Fits tb := by
+  obtain ⟨f, w⟩ := Descriptor.Block.dec_good ht d p b p' h
+  exact ⟨w, f⟩
 
-/-- The full statement is FALSE for descriptors: `ResaveSamples.keyCutShort` is accepted; as a layer-level tagged-block payload it is
-written with `padding=4`, i.e. with two filler bytes, which the re-read takes for the rest of the key (`ab\\0\\0`): the
-re-read structure differs from the one that was saved (clause 2 of the property). Replayed on the real code by the harness. -/
-theorem descriptor_key_cut_short_not_stable :
-    ∃ v n, (DescriptorPayload.codec Descriptor.realTables 4).dec ResaveSamples.keyCutShort 0 = .ok (v, n) ∧ ¬ v.KeysFull ∧
-      ∃ b', (DescriptorPayload.codec Descriptor.realTables 4).enc v = .ok b' ∧ b'.length = 48 ∧
-        ∃ v' n', (DescriptorPayload.codec Descriptor.realTables 4).dec b' 0 = .ok (v', n') ∧ v' ≠ v := by
-  have h1 : ResaveSamples.blockView ((DescriptorPayload.codec Descriptor.realTables 4).dec ResaveSamples.keyCutShort 0) = .ok (ResaveSamples.keyCutShort, 46, false) := by
-    decide +kernel
-  have h2 : (match (DescriptorPayload.codec Descriptor.realTables 4).dec ResaveSamples.keyCutShort 0 with
-      | .ok (v, _) => (DescriptorPayload.codec Descriptor.realTables 4).enc v
-      | .error e => .error e) = .ok (ResaveSamples.keyCutShort ++ [0, 0]) := by decide +kernel
-  have h3 : ResaveSamples.blockView ((DescriptorPayload.codec Descriptor.realTables 4).dec (ResaveSamples.keyCutShort ++ [0, 0]) 0) =
-      .ok (ResaveSamples.keyCutShort ++ [0, 0], 48, true) := by decide +kernel
-  cases hd : (DescriptorPayload.codec Descriptor.realTables 4).dec ResaveSamples.keyCutShort 0 with
-  | error e => rw [hd] at h1; cases h1
-  | ok r =>
-    obtain ⟨v, n⟩ := r
-    rw [hd] at h1 h2
-    simp only [ResaveSamples.blockView, Except.map, Except.ok.injEq, Prod.mk.injEq, decide_eq_false_iff_not] at h1
-    simp only at h2
-    cases hd' : (DescriptorPayload.codec Descriptor.realTables 4).dec (ResaveSamples.keyCutShort ++ [0, 0]) 0 with
-    | error e => rw [hd'] at h3; cases h3
-    | ok r' =>
-      obtain ⟨v', n'⟩ := r'
-      rw [hd'] at h3
-      simp only [ResaveSamples.blockView, Except.map, Except.ok.injEq, Prod.mk.injEq] at h3
-      refine ⟨v, n, rfl, h1.2.2, _, h2, by decide, v', n', hd', ?_⟩
-      intro e
-      have := h3.1
-      rw [e, h1.1] at this
-      revert this
-      decide
+/-- The finding of this layer (repaired by repo commit 3c59c32). `keyCutShort` is a `DescriptorBlock` whose last key - length
+field 0 - has only the two bytes `ab` left. With the lenient key reader the code had before (`fp.read(length or 4)`: what is
+there), the key came back as the 2-byte implicit key `ab`; written back as a layer-level tagged-block payload (`padding=4`:
+two filler bytes) the re-read took the filler for the rest of the key (`ab\\0\\0`) - the re-read structure differed from the
+one that was saved (clause 2 of the property). Stated on the key level: the lenient reader returns a key that violates the
+key law, and the bytes the writer emits for it, followed by the filler, are read as another key. -/
+theorem key_cut_short_before_repair :
+    ResaveSamples.readKeyLenient Descriptor.realTables.terms ResaveSamples.keyCutShort 40 = .ok (⟨[97, 98], true⟩, 46) ∧
+      ¬ Descriptor.KeyWF Descriptor.realTables ⟨[97, 98], true⟩ ∧
+      Descriptor.keyT Descriptor.realTables ⟨[97, 98], true⟩ = [0, 0, 0, 0, 97, 98] ∧
+      ResaveSamples.readKeyLenient Descriptor.realTables.terms ([0, 0, 0, 0, 97, 98] ++ [0, 0]) 0 = .ok (⟨[97, 98, 0, 0], true⟩, 8) := by
+  decide +kernel
 
+/-- ... and is rejected now: `IOError` -/
+theorem key_cut_short_rejected :
+    Descriptor.readKeyR Descriptor.realTables ResaveSamples.keyCutShort 40 = .error .ioError ∧
+      Descriptor.errorOf ((DescriptorPayload.codec Descriptor.realTables 4).dec ResaveSamples.keyCutShort 0) = some .ioError := by
+  decide +kernel
 
 /-! ## payloads inside their containers -/
 
@@ -502,18 +478,9 @@ example : ∃ b v n, HalftoneScreens.codec.dec b 0 = .ok (v, n) ∧ ∃ b', Half
     [[.int 2147483648, .int 1, .int (-65536), .int 1, .int 1, .int 0]], 18, by decide,
     [0x80, 0, 0, 0, 0, 1, 0xff, 0xff, 0, 0, 0, 1, 0, 0, 0, 0, 1, 0], by decide, by decide⟩
 
-/-- the side condition of the descriptor theorems is satisfiable: the same block with its last key in full -/
-example : ∃ v n, (DescriptorPayload.codec Descriptor.realTables 4).dec (ResaveSamples.keyCutShort ++ [99, 100]) 0 = .ok (v, n) ∧
-    v.KeysFull := by
-  have h : ResaveSamples.blockView ((DescriptorPayload.codec Descriptor.realTables 4).dec (ResaveSamples.keyCutShort ++ [99, 100]) 0) =
-      .ok (ResaveSamples.keyCutShort ++ [99, 100], 48, true) := by decide +kernel
-  cases hd : (DescriptorPayload.codec Descriptor.realTables 4).dec (ResaveSamples.keyCutShort ++ [99, 100]) 0 with
-  | error e => rw [hd] at h; cases h
-  | ok r =>
-    obtain ⟨v, n⟩ := r
-    rw [hd] at h
-    simp only [ResaveSamples.blockView, Except.map, Except.ok.injEq, Prod.mk.injEq, decide_eq_true_eq] at h
-    exact ⟨v, n, rfl, h.2.2⟩
+/-- an accepted descriptor payload: the block of `keyCutShort` with its last key in full -/
+example : ResaveSamples.blockView ((DescriptorPayload.codec Descriptor.realTables 4).dec (ResaveSamples.keyCutShort ++ [99, 100]) 0) =
+    .ok (ResaveSamples.keyCutShort ++ [99, 100], 48) := by decide +kernel
 
 /-- non-vacuity of the typed-document theorem: the sample document of C01 (typed resources down to the slices and their
 descriptors), read from its own bytes, satisfies every hypothesis -/
